@@ -272,6 +272,12 @@ func (w *World) Func(pkgKey, name string) *types.Func {
 	if o, ok := scopeLookup(p.Types.Scope(), name).(*types.Func); ok {
 		return o
 	}
+	// turned into a method since the rules were written (anchors.go)
+	for o, how := range convertedFrom {
+		if f, ok := o.(*types.Func); ok && how == "func" && f.Pkg() == p.Types && f.Name() == name {
+			return f
+		}
+	}
 	panic(undecided{fmt.Sprintf("func %s.%s not found", pkgKey, name)})
 }
 
@@ -280,6 +286,11 @@ func (w *World) tryFunc(pkgKey, name string) *types.Func {
 	p := w.Pkg(pkgKey)
 	if o, ok := scopeLookup(p.Types.Scope(), name).(*types.Func); ok {
 		return o
+	}
+	for o, how := range convertedFrom {
+		if f, ok := o.(*types.Func); ok && how == "func" && f.Pkg() == p.Types && f.Name() == name {
+			return f
+		}
 	}
 	return nil
 }
@@ -296,6 +307,12 @@ func (w *World) Method(pkgKey, typ, name string) *types.Func {
 			if f, ok := ms.At(i).Obj().(*types.Func); ok && nm(f) == name {
 				return f
 			}
+		}
+	}
+	// turned into a plain function since the rules were written (anchors.go)
+	for o, how := range convertedFrom {
+		if f, ok := o.(*types.Func); ok && (how == "method:"+typ || how == "method-dropped-receiver:"+typ) && f.Pkg() == p.Types && f.Name() == name {
+			return f
 		}
 	}
 	panic(undecided{fmt.Sprintf("method %s.%s.%s not found", pkgKey, typ, name)})
